@@ -5,7 +5,7 @@ def run(chk):
     V.generic_run(chk, PROPS,
         corr=[dict(name="expr(Model/ExprEval.v: goatlang's parse + opcode choice + Value methods vs the real implementation, and eval_go vs real Go, on arithmetic expressions over int32 variables incl. boundaries)", cmd="c01-corr", stats="C01_corr_stats.json", n_quick=1200, n_thorough=12000),
               dict(name="vm(Model/VM.v runs the real compiled code of generated programs)", cmd="vm-corr", stats="VM_corr_stats.json", n_quick=30, n_thorough=300)],
-        system=[dict(name="whole programs vs the Go toolchain", cmd="c01-diff", stats="C01_diff_stats.json", n_quick=32, n_thorough=1200,
+        system=[dict(name="whole programs vs the Go toolchain", cmd="c01-diff", stats="C01_diff_stats.json", n_quick=160, n_thorough=2400,
                      what="generated well-typed programs of four profiles (core: ints, floats, strings, bools, slices, maps, struct references with methods, variadics, multiple results, recursion, every statement form; scope; planted run-time fault; multi-package layout with vendor-less shortened import paths, package-level initialisers across packages, init functions) run by goatlang and by `go build` of the same source with int read as int32; stdout compared, a Go panic must be a goatlang error with equal output before it")],
         assumptions=["'as the Go toolchain runs them' = the installed go1.23 toolchain on the same source with int := int32",
                      "C01 is the composition of the facet properties: the theorems here compose C05 (grouping) and C04 (operators) for expressions; statements, calls, containers, strings, printing, scoping, packages are covered by C06-C16 and by the whole-program differential, not by one end-to-end theorem (no formal semantics of Go is available: c01_core_partial in DESIGN.md)"])
